@@ -110,6 +110,9 @@ pub struct Trace {
     pub value: Dec,
     pub ops: Vec<Op>,
     pub env: EnvSel,
+    /// how the value travelled before being printed (see Dec::to_bd_via); 0 = built freshly
+    #[serde(default)]
+    pub transport: u8,
 }
 
 pub struct C04;
@@ -392,7 +395,7 @@ impl Property for C04 {
                 Tier::Thorough => (rest % GRID_PATTERNS, rest / GRID_PATTERNS == 1),
             };
             let digits = pattern_digits(rng, pat, len);
-            return Trace { value: Dec::new(neg, &digits, scale), ops: ALL_OPS.to_vec(), env: EnvSel::All };
+            return Trace { value: Dec::new(neg, &digits, scale), ops: ALL_OPS.to_vec(), env: EnvSel::All, transport: (run % 7) as u8 };
         }
         // two more deterministic sweeps: block boundaries of any buffered writer show up as particular scales
         // (plain notation pads |scale| zeros) and particular digit counts (every notation copies the digits)
@@ -400,7 +403,7 @@ impl Property for C04 {
         if r < SCALE_SWEEP {
             let scale = r as i64 / 2 - 2100;
             let digits = if r % 2 == 0 { "1".to_string() } else { format!("{}", 100 + rng.below(900)) };
-            return Trace { value: Dec::new((r / 2) % 2 == 1, &digits, scale), ops: ALL_OPS.to_vec(), env: EnvSel::All };
+            return Trace { value: Dec::new((r / 2) % 2 == 1, &digits, scale), ops: ALL_OPS.to_vec(), env: EnvSel::All, transport: (r % 7) as u8 };
         }
         let r = r - SCALE_SWEEP;
         if r < LEN_SWEEP {
@@ -421,16 +424,17 @@ impl Property for C04 {
                 _ => len as i64 + rng.range(-2, 8),
             };
             // the sink-fault set is independent of the digit count: one environment keeps long values cheap
-            return Trace { value: Dec::new(r % 2 == 1, &digits, scale), ops: ALL_OPS.to_vec(), env: EnvSel::One(SinkSpec::FailAt { k: (r % 5) as usize, sticky: false }) };
+            return Trace { value: Dec::new(r % 2 == 1, &digits, scale), ops: ALL_OPS.to_vec(), env: EnvSel::One(SinkSpec::FailAt { k: (r % 5) as usize, sticky: false }), transport: (r % 7) as u8 };
         }
         let cfg = ValueCfg::swarm(rng, 3000, 1_000_000_000_000_000);
         let (value, _) = gen::gen_dec(rng, &cfg);
-        Trace { value, ops: ALL_OPS.to_vec(), env: EnvSel::All }
+        let transport = rng.below(7) as u8;
+        Trace { value, ops: ALL_OPS.to_vec(), env: EnvSel::All, transport }
     }
 
     fn execute(&self, t: &Trace, obs: &mut Obs) -> Vec<Failure> {
         let mut fails = vec![];
-        let v = t.value.to_bd();
+        let v = t.value.to_bd_via(t.transport);
         let c = Ctx { d: &t.value, v: &v, r: t.value.to_ref() };
         let lb = gen::len_bucket(t.value.ndigits());
         let sb = gen::scale_bucket(t.value.scale, t.value.ndigits());
@@ -544,6 +548,37 @@ impl Property for C04 {
             }
         }
 
+        // references derived with abs() / neg: their renderings must denote |v| and -v with v's digits and scale
+        if t.ops.len() == ALL_OPS.len() {
+            let texts2 = catch(|| {
+                let r = v.to_ref();
+                (format!("{}", r.abs()), format!("{:e}", r.abs()), format!("{}", -r), format!("{:e}", -r))
+            });
+            obs.execs += 4;
+            obs.execs_fault_free += 4;
+            match texts2 {
+                Err(m) => fails.push(base_fail("R0-no-panic", Op::DisplayRef, &SinkSpec::Unbounded, &c, format!("formatting abs()/neg of the reference panicked: {}", m))),
+                Ok((a1, a2, n1, n2)) => {
+                    let want_abs = c.r.abs();
+                    let want_neg = c.r.neg();
+                    for (what, text, want, display) in [("abs", &a1, &want_abs, true), ("abs {:e}", &a2, &want_abs, false), ("neg", &n1, &want_neg, true), ("neg {:e}", &n2, &want_neg, false)] {
+                        let ok = match parse_numeral(text) {
+                            Some(n) => {
+                                let back = RefDec { int: n.int.clone(), exp: -n.scale };
+                                let exempt = display && (-15..=-1).contains(&t.value.scale);
+                                if exempt { back.value_eq(want) } else { back.int == want.int && back.exp == want.exp }
+                            }
+                            None => false,
+                        };
+                        if !ok {
+                            fails.push(base_fail("R3-forms-agree", Op::DisplayRef, &SinkSpec::Unbounded, &c, format!("to_ref().{} prints {:?}, which does not denote {}", what, clip(text, 50), want.describe())));
+                        }
+                    }
+                    obs.reach("derived_references_printed");
+                }
+            }
+        }
+
         // R3: wrapper and writer agree byte for byte; value and reference forms agree
         let get = |o: Op| texts.iter().find(|(p, _)| *p == o).map(|(_, s)| s.as_str());
         let pairs: [(Op, Op); 8] = [
@@ -572,7 +607,7 @@ impl Property for C04 {
     fn narrow(&self, t: &Trace, f: &Failure) -> Trace {
         let ops: Vec<Op> = f.focus.get("ops").and_then(|v| serde_json::from_value(v.clone()).ok()).unwrap_or_else(|| t.ops.clone());
         let env: SinkSpec = f.focus.get("env").and_then(|v| serde_json::from_value(v.clone()).ok()).unwrap_or(SinkSpec::Unbounded);
-        Trace { value: t.value.clone(), ops, env: EnvSel::One(env) }
+        Trace { value: t.value.clone(), ops, env: EnvSel::One(env), transport: t.transport }
     }
 
     fn shrink(&self, t: &Trace) -> Vec<Trace> {
@@ -612,18 +647,21 @@ impl Property for C04 {
                 }
             }
             for e in envs {
-                out.push(Trace { value: t.value.clone(), ops: t.ops.clone(), env: EnvSel::One(e) });
+                out.push(Trace { value: t.value.clone(), ops: t.ops.clone(), env: EnvSel::One(e), transport: t.transport });
             }
         }
         if t.ops.len() > 1 {
             for i in 0..t.ops.len() {
                 let mut ops = t.ops.clone();
                 ops.remove(i);
-                out.push(Trace { value: t.value.clone(), ops, env: t.env.clone() });
+                out.push(Trace { value: t.value.clone(), ops, env: t.env.clone(), transport: t.transport });
             }
         }
+        if t.transport != 0 {
+            out.push(Trace { transport: 0, ..t.clone() });
+        }
         for d in gen::shrink_dec(&t.value) {
-            out.push(Trace { value: d, ops: t.ops.clone(), env: t.env.clone() });
+            out.push(Trace { value: d, ops: t.ops.clone(), env: t.env.clone(), transport: t.transport });
         }
         out
     }
